@@ -5,3 +5,6 @@ import PyIkev2.Props.C02
 #print axioms PyIkev2.Props.C02.c02_verify_only_with_configured_credential
 #print axioms PyIkev2.Props.C02.c02_octets_unambiguous
 #print axioms PyIkev2.Props.C02.c02_psk_auth_binds
+#print axioms PyIkev2.Props.C02.c02_whole_model_handlers_before_auth
+#print axioms PyIkev2.Props.C02.c02_whole_model_message_before_auth
+#print axioms PyIkev2.Props.C02.c02_whole_model_never_established_without_verdict
